@@ -517,6 +517,20 @@ def run(ctx):
             "determinism_replays": sum(o["replays"] for o in outs),
             "capped": capped,
         }
+    # ---- long waits: the result the reaper is waiting for appears only after
+    # it has looked P times (every P up to a bound); no real time passes
+    pmax = 40 if ctx.tier == "quick" else 150
+    waits = list(ctx.map_unordered(
+        "long_wait", [{"polls": list(range(lo, min(lo + 10, pmax + 1)))}
+                      for lo in range(1, pmax + 1, 10)]))
+    nwait = 0
+    for out in waits:
+        nwait += out["n"]
+        for k, w, case in out["violations"]:
+            ctx.violation(k, w, case)
+    ctx.evaluations += nwait
+    ctx.coverage_extra["long_waits"] = {
+        "polls_before_the_result_appears": "1..%d" % pmax, "runs": nwait}
     ctx.coverage_extra.update({
         "states": transitions + len(cfgs),
         "transitions": transitions,
@@ -526,6 +540,80 @@ def run(ctx):
         "nodes visited; transitions = scheduling choices taken",
         "per_configuration": per,
     })
+
+
+def long_wait(task):
+    """reap(wait=True) while the first batch's result is published only at
+    the reaper's P-th sleep, for every P of the task"""
+    import time
+    import xyzpy as xyz
+    from xyzpy.gen.cropping import grow
+
+    vio = []
+    n = 0
+    f = xfn.make_fn(["a"], kind="num", name="f11w")
+    combos = {"a": [1, 2, 3, 4]}
+    want = tuple(xfn.expected("num", {"a": a}) for a in combos["a"])
+    for P in task["polls"]:
+        n += 1
+        d = core.fresh_dir("c11w")
+        crop = xyz.Crop(fn=f, name=NAME, parent_dir=d, batchsize=2)
+        crop.sow_combos(combos, verbosity=0)
+        for i in (1, 2):
+            grow(i, crop=crop, verbosity=0)
+        res1 = os.path.join(crop.location, "results", "xyz-result-1.jbdmp")
+        aside = os.path.join(d, "held-back")
+        os.replace(res1, aside)
+        count = [0]
+        real_sleep = time.sleep
+
+        def fake_sleep(t):
+            count[0] += 1
+            if count[0] == P:
+                os.replace(aside, res1)  # (published atomically)
+            if count[0] > P + 5:
+                raise core.HarnessError("the reaper keeps sleeping although "
+                                        "the result is there")
+
+        # (should an implementation wait by other means than time.sleep, the
+        # result is published after 15 real seconds and the run not judged)
+        import threading
+
+        late = [False]
+
+        def rescue():
+            if os.path.exists(aside):
+                late[0] = True
+                os.replace(aside, res1)
+
+        timer = threading.Timer(15.0, rescue)
+        timer.daemon = True
+        timer.start()
+        time.sleep = fake_sleep
+        try:
+            try:
+                got = xyz.Crop(name=NAME, parent_dir=d).reap(
+                    wait=True, clean_up=False)
+            finally:
+                time.sleep = real_sleep
+                timer.cancel()
+            if late[0]:
+                n -= 1
+                continue
+            if tuple(got) != want:
+                vio.append(("C11|long-wait|wrong", "the result appeared at "
+                            "the reaper's %d-th sleep: reaped %r, expected %r"
+                            % (P, got, want), {"_call": "long_wait",
+                                               "payload": {"polls": [P]}}))
+        except core.HarnessError:
+            raise
+        except Exception as e:
+            vio.append(("C11|long-wait|raised:" + type(e).__name__,
+                        "the result appeared at the reaper's %d-th sleep "
+                        "(after %d sleeps): reap(wait=True) raised %r"
+                        % (P, count[0], e),
+                        {"_call": "long_wait", "payload": {"polls": [P]}}))
+    return {"n": n, "violations": vio}
 
 
 def replay(case):
